@@ -26,7 +26,7 @@ RULE = ("payload trees (nesting <= 6) holding class-tagged dicts at any depth: t
         "encoded bytes); non-trivial = the payload contains at least one class-tagged dict")
 ASSUMPTIONS = ["CPython audit events cover import/exec/open/socket/subprocess/ctypes side effects", "marshal byte-level fuzz excluded (quantifier is over payload trees)",
                "converters registered by the harness itself are exempt, as the statement says"]
-REQUIRED_REACH = ["decoded_ok", "rejected", "must_raise_checked", "audit_allowed_events", "exceptions_built", "pyro_objects_built", "mutants_decoded", "converter_exemption_checked", "near_miss_tags_checked", "decodes_from_memoryview", "decodes_from_bytearray"]
+REQUIRED_REACH = ["decoded_ok", "rejected", "must_raise_checked", "audit_allowed_events", "exceptions_built", "pyro_objects_built", "mutants_decoded", "converter_exemption_checked", "near_miss_tags_checked", "decodes_from_memoryview", "decodes_from_bytearray", "converter_history_decodes"]
 SHARD_TIMEOUT = {"quick": 220, "thorough": 2400}
 
 SAFE_TAGS = ["Pyro5.core.URI", "Pyro5.client.Proxy", "Pyro5.server.Daemon", "Pyro5.util.SerpentSerializer", "Pyro5.util.MarshalSerializer",
@@ -506,6 +506,80 @@ def run_shard(shard, rec):
         rec.count("converter_exemption_checked")
     if len(calls) != 4:
         rec.violation("converter-called-unexpectedly", "converter calls: %r" % (calls,), None)
+    for h in range(6 if rec.tier == "quick" else 60):
+        converter_history(env, rec, r, 10)
+
+
+def converter_history(env, rec, r, nops):
+    """register / unregister histories of the converter registry through every public entry point (Pyro5.api, SerializerBase, a serializer class, a
+    serializer instance: the registry is one, whoever is asked). After every step every serializer decodes every tag on both paths: a tag
+    whose converter is registered at that moment is converted by exactly that converter; any other tag is a foreign tag again."""
+    P = env[0]
+    import Pyro5.api
+    SB = P.serializers.SerializerBase
+    classes = {"serpent": P.serializers.SerpentSerializer, "json": P.serializers.JsonSerializer, "marshal": P.serializers.MarshalSerializer, "msgpack": P.serializers.MsgpackSerializer}
+    vias = [("api", Pyro5.api.register_dict_to_class, Pyro5.api.unregister_dict_to_class), ("base", SB.register_dict_to_class, SB.unregister_dict_to_class)]
+    for name in fixture.SERIALIZERS:
+        vias.append(("class:" + name, classes[name].register_dict_to_class, classes[name].unregister_dict_to_class))
+        inst = P.serializers.serializers[name]
+        vias.append(("instance:" + name, inst.register_dict_to_class, inst.unregister_dict_to_class))
+    tags = ["c04h.Thing", "c04h.Other", "c04h.sub.Third"]
+    calls = []
+    model = {}       # tag -> generation of the converter registered now
+    gen_no = [0]
+    steps = []
+
+    def conv(g):
+        return lambda cn, d: calls.append((cn, g)) or ("converted", cn, g)
+    try:
+        for _ in range(nops):
+            tag = r.choice(tags)
+            via = r.choice(vias)
+            if tag in model and r.random() < 0.6:
+                via[2](tag)
+                del model[tag]
+                steps.append(("unregister", tag, via[0]))
+            else:
+                gen_no[0] += 1
+                via[1](tag, conv(gen_no[0]))
+                model[tag] = gen_no[0]
+                steps.append(("register", tag, via[0]))
+            for name in fixture.SERIALIZERS:
+                ser = P.serializers.serializers[name]
+                for t in tags:
+                    for call in (False, True):
+                        node = {"__class__": t, "v": 1}
+                        data = encode(name, ([node], {}) if call else [0, {"k": node}], call)
+                        pay = ("tree", name, call, data, t not in model)
+                        rec.case(("convhist", core.h64(repr(steps)), name, t, call), nontrivial=True,
+                                 sample={"converter_history": steps[-6:], "serializer": name, "tag": t, "registered_now": t in model} if rec.evaluations % 2000 == 9 else None)
+                        before = len(calls)
+                        if t not in model:
+                            run_decode(env, name, data, call, True, rec, pay)
+                            if len(calls) != before:
+                                rec.violation("converter-called-after-unregister", "%s.%s: tag %r is not registered (history %r) but a converter registered earlier was called: %r" % (
+                                    name, "loadsCall" if call else "loads", t, steps[-8:], calls[-1]), None)
+                                del calls[before:]
+                                return
+                        else:
+                            try:
+                                ser.loadsCall(data) if call else ser.loads(data)
+                                err = None
+                            except Exception as x:
+                                err = x
+                            new = calls[before:]
+                            if err is not None or new != [(t, model[t])]:
+                                rec.violation("converter-not-applied", "%s.%s: tag %r has converter #%d registered (history %r): decoding raised %r, converter calls %r" % (
+                                    name, "loadsCall" if call else "loads", t, model[t], steps[-8:], err, new), None)
+                                return
+                        rec.count("converter_history_decodes")
+    finally:
+        for t in tags:
+            for via in vias:
+                try:
+                    via[2](t)
+                except Exception:
+                    pass
 
 
 def replay(payload, rec):
